@@ -241,6 +241,15 @@ def handleC15 (cmd : String) (args : List Sexp) : Option Sexp :=
       pure (match metaOpts (← ob? ka) (← ob? kn) (← ob? kf) (← bool? ks) base with
         | .error e => tagged "err" [errToSexp e]
         | .ok r => tagged "ok" [.atom (toString r.autocast), .atom (toString r.frozen), .atom (toString r.nocast), .atom (toString r.shadow)])
+  -- (c15.pytree (fields…) (entries…) (nt…) nvalues): tree_unflatten(values', context of tree_flatten(tc)) with `nvalues` new leaves
+  | "c15.pytree", [.list fs, .list es, .list nt, nv] => do
+      let tc : TC (TDm String String) String := ⟨"C", ⟨← entries? es, false⟩, ← nt? nt⟩
+      let n ← asNat? nv
+      let (vals, ctx) := pytreeFlatten tc
+      let vals' : List (Entry String String) := (List.range n).map (fun i => match vals[i]? with | some e => e | none => .leaf "extra")
+      pure (match pytreeUnflatten (← fs.mapM asAtom?) tc.cls vals' ctx with
+        | .error e => tagged "err" [errToSexp e]
+        | .ok tc' => tagged "ok" [.list [.atom (toString vals.length), .list (ctx.keys.map .atom)], tcToSexp tc'])
   -- (c15.dropstale (entries…) (nt…)): `_non_tensordict` after the wrapper's pruning
   | "c15.dropstale", [.list es, .list nt] => do
       let tc : TC (TDm String String) String := ⟨"C", ⟨← entries? es, false⟩, ← nt? nt⟩
